@@ -5,6 +5,7 @@ it means for a Go value to inhabit a Go type, and the decidable side conditions
 under which the round trip is exact.
 -/
 import CtyModel.Gocty
+import CtyModel.Lemmas.ValEqDec
 namespace CtyModel
 namespace Gocty
 
@@ -99,12 +100,25 @@ end
   carried by the bridge and holds its zero value;
 * no `cty.Value` below a slice, array or map (a cty list/map has one element type),
   and no `cty.NilVal` (the invalid zero `cty.Value`) in a bridged position. -/
+/-- d18: the members of a slice / array / map whose element type is `cty.Value` itself are embedded
+values all of ONE type, which is not the dynamic pseudo-type (a cty list / map has one element type;
+`Ty.same` is structural equality, `t.equals t` holds of every well-formed type) -/
+def sameTyCv (t : Ty) : List GoVal → Bool
+  | [] => true
+  | .cval w :: vs => Ty.same w.ty t && sameTyCv t vs
+  | _ :: _ => false
+
+def uniformCv : GoTy → List GoVal → Bool
+  | .cval, [] => true
+  | .cval, .cval w :: vs => !isDynTy w.ty && Ty.equals w.ty w.ty && sameTyCv w.ty vs
+  | _, _ => false
+
 mutual
 def rtSide (norm : String → String) : GoVal → GoTy → Bool
   | .str s, _ => norm s == s
-  | .slice vs, .slice e => !hasCval e && rtSideL norm vs e
-  | .arr vs, .array _ e => !hasCval e && rtSideL norm vs e
-  | .map ks vs, .map e => ks.map norm == ks && !hasCval e && rtSideL norm vs e
+  | .slice vs, .slice e => (!hasCval e || uniformCv e vs) && rtSideL norm vs e
+  | .arr vs, .array _ e => (!hasCval e || uniformCv e vs) && rtSideL norm vs e
+  | .map ks vs, .map e => ks.map norm == ks && (!hasCval e || uniformCv e vs) && rtSideL norm vs e
   | .nilPtr, .ptr e => plainPointee e
   | .ptr v, .ptr e => rtSide norm v e
   | .struct tags vs, .struct _ tys =>
